@@ -4,10 +4,36 @@ import os
 import sys
 
 
+class Tagged(object):
+    """an argument type defined in the session's own __main__ (this module is run with -m): pickled by reference it is
+    process independent; its body holds a set of strings, whose order is not"""
+    TAGS = frozenset(['alpha', 'beta', 'gamma', 'delta', 'epsilon'])
+    KINDS = {'red', 'green', 'blue', 'cyan'}
+
+    def __init__(self, n):
+        self.n = n
+
+    def __repr__(self):
+        return 'Tagged(%r)' % (self.n,)
+
+    def __eq__(self, other):
+        return isinstance(other, Tagged) and other.n == self.n
+
+    def __hash__(self):
+        return 17 + self.n
+
+
 def keymap_table(tier):
     import klepto.keymaps as km
+    import pickle as _pickle
+    import json as _json
+    import dill as _dill
     S = km.SENTINEL
     t = [
+        # serializers given as module objects (the documented form) as well as by name
+        ('picklemap(dill as module object)', lambda: km.picklemap(serializer=_dill)),
+        ('picklemap(pickle as module object,flat=False)', lambda: km.picklemap(serializer=_pickle, flat=False)),
+        ('picklemap(json as module object)', lambda: km.picklemap(serializer=_json)),
         ('keymap()', lambda: km.keymap()),
         ('keymap(flat=False)', lambda: km.keymap(flat=False)),
         ('keymap(typed)', lambda: km.keymap(typed=True)),
@@ -47,7 +73,7 @@ def option_sweep():
 
 def structured_values():
     return ['s', 'two words', b'by', 1.5, -0.0, 10 ** 20, None, True, (1, 'a'), ((1, 2), ('x', 2.5)), [1, 'l'],
-            {'k': 1, 'j': [2.5, 'v']}, {'b': 1, 'a': 2}, frozenset([1]), ('nest', [1, {'d': (None,)}])]
+            {'k': 1, 'j': [2.5, 'v']}, {'b': 1, 'a': 2}, frozenset([1]), ('nest', [1, {'d': (None,)}]), Tagged(3), [Tagged(1), 'x']]
 
 
 def functions():
